@@ -165,6 +165,7 @@ def c30_runs(tier):
         runs.append(explore('c30', 'fork', 2, 2, 1, budget=40))
         runs.append(explore('c30', 'two_components', 3, 1, 1, park=0, budget=40))
         runs.append(explore('c30', 'chain', 3, 2, 1, gt=1, b=4, budget=40))
+        runs.append(explore('c30', 'join', 3, 1, 2, budget=60))
     else:
         for shape in ('diamond', 'chain', 'fork', 'join', 'two_components'):
             for ex in (1, 3):
@@ -179,9 +180,10 @@ def c30_runs(tier):
             runs.append(explore('c30', shape, ex, 2, 1, gt=1, b=b, budget=60))
         # subgraph clear + rebuild, grow, then a concurrent evaluation
         runs.append(explore('c30', 'diamond', 3, 1, 1, s=6, script=1, k=1, pre=1, re=1, budget=120))
-        runs.append(explore('c30', 'join', 3, 2, 1, s=4, script=2, late=4, re=1, budget=120))
-        for shape, ex in (('chain', 3), ('fork', 3), ('join', 3), ('join', 1)):
-            runs.append(explore('c30', shape, ex, 1, 2, budget=150))
+        runs.append(explore('c30', 'join', 3, 1, 1, s=4, script=2, late=4, re=1, budget=120))
+        for shape in ('chain', 'fork', 'join'):
+            for ex in (1, 2, 3, 4):
+                runs.append(explore('c30', shape, ex, 1, 2, budget=150))
     # --- sanitizer legs (node bodies read plain data written by their predecessors: a missing happens-before edge
     #     between "predecessor finished" and "dependent started" is a TSan report)
     runs.append(explore('c30', 'join', 3, 1, 1, mode='tsan', budget=60))
